@@ -33,6 +33,8 @@ def qpi (s : Stack) : List (Nat × Out) × List (Dest × List SDEntry) × List C
 @[simp] theorem qpi_with_subLog (s : Stack) (x : List (Addr × Nat × List Eventgroup)) : qpi { s with subLog := x } = qpi s := rfl
 @[simp] theorem qpi_with_findLog (s : Stack) (x : List (Nat × Nat)) : qpi { s with findLog := x } = qpi s := rfl
 @[simp] theorem qpi_with_findMarks (s : Stack) (x : List (Nat × Nat)) : qpi { s with findMarks := x } = qpi s := rfl
+@[simp] theorem qpi_with_ansLog (s : Stack) (x : List (Nat × Addr × Nat × Nat)) : qpi { s with ansLog := x } = qpi s := rfl
+@[simp] theorem qpi_logAnswer (s : Stack) (i : Nat) (a : Addr) (d : Nat) : qpi (s.logAnswer i a d) = qpi s := rfl
 @[simp] theorem qpi_markFind (s : Stack) (n : Nat) : qpi (s.markFind n) = qpi s := rfl
 @[simp] theorem qpi_with_offLog (s : Stack) (x : List (Nat × OEv × Nat)) : qpi { s with offLog := x } = qpi s := rfl
 @[simp] theorem qpi_logOffer (s : Stack) (i : Nat) (e : OEv) : qpi (s.logOffer i e) = qpi s := rfl
